@@ -69,10 +69,20 @@ class LongitudeContinuity(Contract):
 
     def configs(self, tier):
         out = [{"coords": None}, {"coords": 1, "extra": 0}, {"coords": 2, "extra": 0}, {"coords": 1, "extra": 1}, {"coords": None, "valid": False}, {"coords": 1, "extra": 0, "valid": False}]
+        # the region given as an ndarray (C20: it must not be written to; the frame obligation sees an aliased write)
+        out += [{"coords": None, "region": "array"}, {"coords": 1, "extra": 0, "region": "array"}]
         return out
 
     def setup(self, B, cfg):
         region = [B.real("W"), B.real("E"), B.real("S"), B.real("N")]
+        if cfg.get("region") == "array":
+            arr = B.array("region", (4,))
+            B.assume(and_(*[arr.at(k) == region[k] for k in range(4)]))
+            self._region_values = region
+            region_arg = arr
+        else:
+            self._region_values = None
+            region_arg = region
         coords = None if cfg["coords"] is None else _lon_lat(B, cfg["coords"], cfg.get("extra", 0))
         self._valid = cfg.get("valid", True)
         if self._valid:
@@ -81,10 +91,20 @@ class LongitudeContinuity(Contract):
             if coords is not None:
                 lon, lat = coords[0], coords[1]
                 B.assume(Forall(lon.shape, lambda *i: and_(lon.at(*i) >= -180, lon.at(*i) <= 360, lat.at(*i) >= -90, lat.at(*i) <= 90)))
-        return (coords, region), {}
+        return (coords, region_arg), {}
+
+    @staticmethod
+    def _r4(a):
+        """The four bounds AS GIVEN (entry values, also when the region is an array the code could write to)."""
+        reg = a.region
+        if isinstance(reg, SymArr):
+            old = getattr(a, "old", None)
+            reg = old.region if old is not None and isinstance(getattr(old, "region", None), SymArr) else reg
+            return [reg.at(k) for k in range(4)]
+        return list(reg[:4])
 
     def requires(self, a):
-        W, E = a.region[0], a.region[1]
+        W, E = self._r4(a)[:2]
         gap = _abs(_abs(E - W) - 360)
         # widths within 0.01 degree of, but not equal to, a full circle are excluded (approximate full-globe test)
         near_full = and_(gap <= 0.01, gap != 0)
@@ -92,7 +112,7 @@ class LongitudeContinuity(Contract):
 
     @staticmethod
     def _region_ok(a):
-        W, E, S_, N = a.region[:4]
+        W, E, S_, N = LongitudeContinuity._r4(a)
         return and_(W >= -180, W <= 360, E >= -180, E <= 360, S_ >= -90, S_ <= 90, N >= -90, N <= 90, _abs(E - W) <= 360)
 
     def raises(self, a):
@@ -114,6 +134,9 @@ class LongitudeContinuity(Contract):
             W, E = rng.uniform(-180, 360), rng.uniform(-180, 360)
             yield ((lons + 0.0, lats), [W, E, -90.0, 90.0]), {}
             yield (None, [W, E, -90.0, 90.0]), {}
+        for W, E in ((350.0, 10.0), (-70.0, -60.0), (-180.0, 180.0), (340.5, 20.25), (10.0, 20.0)):
+            yield (None, np.array([W, E, -10.0, 10.0])), {}  # region as an ndarray: must come back untouched
+            yield ((lons + 0.0, lats), np.array([W, E, -10.0, 10.0])), {}
         yield (None, [0.0, 400.0, 0.0, 1.0]), {}
         yield (None, [-181.0, 0.0, 0.0, 1.0]), {}
         yield (None, [0.0, 10.0, -91.0, 1.0]), {}
@@ -121,7 +144,7 @@ class LongitudeContinuity(Contract):
         yield ((np.array([0.0]), np.array([-90.5])), [0.0, 10.0, 0.0, 1.0]), {}
 
     def ensures(self, a, r):
-        W, E, S_, N = a.region[:4]
+        W, E, S_, N = self._r4(a)
         has_coords = bool(a.coordinates)
         if has_coords:
             ok = isinstance(r, tuple) and len(r) == 2 and isinstance(r[0], SymArr) and isinstance(r[1], SymArr)
@@ -135,7 +158,9 @@ class LongitudeContinuity(Contract):
             if not ok:
                 return out
             coords, region = None, r
-        out["region_has_4_bounds"] = region.ndim == 1 and region.shape[0] == len(a.region)
+        out["region_has_4_bounds"] = region.ndim == 1 and region.shape[0] == 4
+        if isinstance(a.region, SymArr):
+            out["the_given_region_array_is_not_modified"] = and_(*[a.region.at(k) == v for k, v in enumerate((W, E, S_, N))])
         if not out["region_has_4_bounds"]:
             return out
         W2, E2 = region.at(0), region.at(1)
